@@ -204,14 +204,17 @@ def finish (f : Forest) (notifyOn : Bool) (r : Except Err (Forest × Bool)) (tar
   | .ok (f', upd) => ⟨if notifyOn && upd then notify f' targets else f', .ok⟩
 
 -- follow actual keys from a node (`KeyPath.query`, value_location.py:334-387).
+/-- `list.__getitem__` accepts a negative index. -/
+def normKey (kind : Kind) (len : Nat) (k : Key) : Key :=
+  match kind, k with
+  | .list, .i idx => if idx < 0 then Key.i (idx + len) else k
+  | _, _ => k
+
 mutual
   def Tree.query : Tree → List Key → Option Tree
     | t, [] => some t
     | .leaf _, _ :: _ => none
-    | .node m its, k :: ks =>
-      queryItems its (match m.kind, k with
-        | .list, .i idx => if idx < 0 then Key.i (idx + its.length) else k
-        | _, _ => k) ks
+    | .node m its, k :: ks => queryItems its (normKey m.kind its.length k) ks
   def queryItems : Items → Key → List Key → Option Tree
     | [], _, _ => none
     | (k', c) :: r, k, ks => if k' = k then c.query ks else queryItems r k ks
